@@ -140,6 +140,13 @@ func caseC14(r *rand.Rand, cw *CalcWriter, label string, maxT int) {
 		cw.emit(ev)
 	default: // clusters by length threshold
 		s := genSTree(r, &gp)
+		if r.Intn(10) == 0 {
+			// a tree hanging from a named tip (the root has one neighbour: gotree counts it among the tips), as UnRoot
+			// of a two-tip tree or a tree written as ((C,D):2)A; gives
+			s = &STree{Name: "rt", Len: NILU, Sup: NILU, Pv: NILU, Ch: []*STree{s}}
+			s.Ch[0].Len = genLen(r, &gp, 0)
+			s.Ch[0].Sup = NILU
+		}
 		t, err := build(s)
 		if err != nil {
 			fatal("build: %v", err)
